@@ -23,7 +23,10 @@ RULE = ("structure stage: whole reference proteins with threaded clusters (acid-
         "contains a Coulomb determinant between like-charged groups, an ion determinant, a ligand-group determinant "
         "or an exception-value side-chain determinant (classes absent from most reference files); distinct by hash.")
 ASSUMPTIONS = [
-    "default options only (the coupled-residue display mode re-orders interactions on purpose)",
+    "default options and parameter files that change desolvationAllowance / remove_penalised_group / "
+    "common_charge_centre; shared_determinants is not varied: that option copies determinants between covalently "
+    "coupled groups regardless of their charge, so the sign rules do not apply to it (the coupled-residue display mode re-orders interactions on "
+    "purpose and is not included)",
     "side-chain bound: 2 x sidechain_interaction, except CYS-CYS pairs, which may take the configured CYS_CYS "
     "exception value; the other configured exception values (1.60) are below the bound anyway",
 ]
@@ -55,6 +58,9 @@ def check_case(case):
     opt = []
     if case.get("allowance"):
         opt = ["-p", allowance_cfg(case["allowance"])]
+    elif case.get("flags"):
+        from props import c02
+        opt = ["-p", c02.variant_cfg(case["flags"])]
     rec = observe.run(text, opt, name="a", keep_mol=True)
     if rec["error"]:
         return [], {"labels": ["error:" + rec["error"]["type"]]}
@@ -203,19 +209,40 @@ def run_shard(ctx):
         else:
             s = draw(gen.structures(max_res=40 if quick else 80, max_atoms=1600))
         allowance = draw(st.sampled_from([0, 0, 0, 0.1, 0.4]))
-        return s, allowance
+        flags = {}
+        if not allowance and draw(st.integers(0, 3)) == 0:
+            # determinant sharing is NOT varied: it copies a determinant to every covalently coupled group whatever
+            # its charge (by design of that option), so the sign rules of the statement do not apply to it
+            flags = {"shared_determinants": 0, "remove_penalised_group": draw(st.integers(0, 1)),
+                     "common_charge_centre": draw(st.integers(0, 1))}
+        return s, allowance, flags
 
     def body(t):
-        s, allowance = t
-        case = {"pdb": s.text, "allowance": allowance}
+        s, allowance, flags = t
+        case = {"pdb": s.text, "allowance": allowance, "flags": flags}
         v, info = check_case(case)
         info["labels"] = info.get("labels", []) + [l for l in s.labels if l.startswith("cluster:")] + \
-            (["allowance>0"] if allowance else [])
-        info["sample"] = {"structure": s.summary(), "threaded": s.info.get("mutated"), "desolvationAllowance": allowance,
+            (["allowance>0"] if allowance else []) + (["cfg-variant"] if flags else [])
+        info["sample"] = {"structure": s.summary(), "threaded": s.info.get("mutated"), "desolvationAllowance": allowance, "flags": flags,
                           "classes": info.get("labels", [])[:10]}
         ctx.account(case, v, info)
 
     ctx.hypothesis_stage("structures", cases(), body, 900 if quick else 12000)
+
+    # the reference files with ligands / coupled systems under the sharing flags
+    combos = [(n, f) for n in ("4DFR", "1HPX", "1FTJ-Chain-A", "3SGB") for f in (
+        {}, {"shared_determinants": 0, "remove_penalised_group": 0, "common_charge_centre": 0},
+        {"shared_determinants": 0, "remove_penalised_group": 1, "common_charge_centre": 1})]
+    mine = [combos[i] for i in ctx.my_slice(len(combos))]
+
+    def corpus_body(t):
+        n, flags = t
+        case = {"pdb": gen.corpus_text(n), "allowance": 0, "flags": flags}
+        v, info = check_case(case)
+        info["sample"] = {"structure": "corpus " + n, "flags": flags}
+        ctx.account(case, v, info)
+
+    ctx.loop_stage("corpus-files", mine, corpus_body)
 
     @st.composite
     def units(draw):
